@@ -82,6 +82,14 @@ func main() {
 			var d plyDesc
 			json.Unmarshal(in.Raw, &d)
 			run.Add(plyCase(d))
+		case "spzhdr":
+			var d bytesDesc
+			json.Unmarshal(in.Raw, &d)
+			run.Add(spzHdrCase(d))
+		case "chain:spz>splat", "chain:spz>ply", "chain:splat>ply", "chain:ply>splat":
+			var d chainDesc
+			json.Unmarshal(in.Raw, &d)
+			run.Add(chainCase(d))
 		case "bigspz":
 			var d bigSpzDesc
 			json.Unmarshal(in.Raw, &d)
@@ -107,11 +115,17 @@ func main() {
 	splatFixed(run)
 	spzFixed(run, r, thorough)
 	plyFixed(run)
+	chainFixed(run)
 	bigFixed(run, thorough)
 
 	// ---- generated ----
 	for i := 0; i < run.N; i++ {
-		switch i % 8 {
+		switch i % 10 {
+		case 8:
+			run.Add(chainCase(genChain(r, run)))
+		case 9:
+			d := genSpzRaw(r, run)
+			run.Add(spzHdrCase(d))
 		case 0, 1, 2:
 			d := genCloud(r)
 			run.Count(fmt.Sprintf("splat:n=%s", bucket(len(d.Splats))))
